@@ -3,6 +3,7 @@ package bebop
 import (
 	"fmt"
 	"strconv"
+	"unsafe"
 )
 
 func evaluateBitflagExpr(n bitFlagExprNode, opts []EnumOption, uinttype bool, bitsize int) (int64, uint64, error) {
@@ -52,6 +53,9 @@ func evaluateBitflagExpSigned[T signedInteger](n bitFlagExprNode, opts []EnumOpt
 		if err != nil {
 			return 0, err
 		}
+		if int64(T(optInteger)) != optInteger {
+			return 0, readError(v.tk, "%v overflows the enum's base type", optInteger)
+		}
 		return T(optInteger), nil
 	case parenNode:
 		return evaluateBitflagExpSigned[T](v.inner, opts)
@@ -67,6 +71,16 @@ func evaluateBitflagExpSigned[T signedInteger](n bitFlagExprNode, opts []EnumOpt
 		if rhs < 0 && (v.op == tokenKindDoubleCaretLeft || v.op == tokenKindDoubleCaretRight) {
 			// Go panics on a negative shift count
 			return 0, fmt.Errorf("negative shift count %d in bitflag expression", rhs)
+		}
+		if v.op == tokenKindDoubleCaretLeft {
+			// the value is computed in the enum's base type: do not let bits fall off silently
+			// (shifting a one into the sign bit is a pattern, not a loss)
+			width := T(unsafe.Sizeof(lhs) * 8)
+			shifted := lhs << rhs
+			mask := ^uint64(0) >> (64 - uint64(width))
+			if rhs >= width || (shifted>>rhs != lhs && (uint64(shifted)&mask)>>uint64(rhs) != uint64(lhs)&mask) {
+				return 0, fmt.Errorf("%d << %d overflows the enum's base type", lhs, rhs)
+			}
 		}
 		switch v.op {
 		// TODO: confirm that the behavior of these operators in Go
@@ -103,6 +117,9 @@ func evaluateBitflagExprUnsigned[T unsignedInteger](n bitFlagExprNode, opts []En
 		if err != nil {
 			return 0, err
 		}
+		if uint64(T(optInteger)) != optInteger {
+			return 0, readError(v.tk, "%v overflows the enum's base type", optInteger)
+		}
 		return T(optInteger), nil
 	case parenNode:
 		return evaluateBitflagExprUnsigned[T](v.inner, opts)
@@ -114,6 +131,13 @@ func evaluateBitflagExprUnsigned[T unsignedInteger](n bitFlagExprNode, opts []En
 		rhs, err := evaluateBitflagExprUnsigned[T](v.rhs, opts)
 		if err != nil {
 			return 0, err
+		}
+		if v.op == tokenKindDoubleCaretLeft {
+			// the value is computed in the enum's base type: do not let bits fall off silently
+			width := T(unsafe.Sizeof(lhs) * 8)
+			if rhs >= width || (lhs<<rhs)>>rhs != lhs {
+				return 0, fmt.Errorf("%d << %d overflows the enum's base type", lhs, rhs)
+			}
 		}
 		switch v.op {
 		// TODO: confirm that the behavior of these operators in Go
